@@ -203,6 +203,10 @@ class PythonExpressionMapper(_CodegenStringifyMapper):
             # Otherwise (-2)**2 would be printed as -2**2.
             return "(%s)" % repr(expr)
 
+        if isinstance(expr, complex) and repr(expr).startswith("-"):
+            # Likewise for (-1j)**2.
+            return "(%s)" % repr(expr)
+
         return repr(expr)
 
     def map_foreign(self, expr, *args):
